@@ -944,7 +944,7 @@ def _has_param(v, depth=0):
     return any(_has_param(x, depth + 1) for x in v if isinstance(x, tuple))
 
 
-def slot_discipline(R, E, F, CG, state, rule, writers=('send',), may_take=True):
+def slot_discipline(R, E, F, CG, state, rule, writers=('send',), may_take=True, empty_when=None):
     """Over EVERY transition of the state (its entry methods and any function outside the state layer that mutates it
     directly): the value slot is assigned only by the listed writer methods, and it is emptied (take / replace /
     mem::replace) only on a path that hands the old payload to the caller (or that knows the slot was empty);
@@ -977,6 +977,14 @@ def slot_discipline(R, E, F, CG, state, rule, writers=('send',), may_take=True):
                                                  for t in path.events)):
                     n += 1
                     oldk = E.variant_known(path.facts, e['old']) if e.get('old') is not None else None
+                    if oldk is None and empty_when is not None:
+                        # the property's invariant says when the slot is empty (oneshot: while is_fulfilled == false)
+                        fl_ = const_of(E, path.facts, ('init', loc[:-1] + (empty_when[0],)))
+                        if fl_ == empty_when[1]:
+                            oldk = ('eq', 'None')
+                    if e['val'] == NONE and not may_take and oldk == ('eq', 'None'):
+                        R.ok(rule, '%s|None written over an empty slot' % m['path'])
+                        continue
                     if e['val'] == NONE and may_take and not (e.get('old') == NONE or oldk == ('eq', 'None')):
                         R.fail(rule, [m['path'], 'slot-emptied-without-delivery'],
                                '%s overwrites the value slot with None on a path that does not know it to be empty: a '
